@@ -247,6 +247,7 @@ class TlsExtensionServerNameClient(TlsExtensionParsed):
 
         try:
             host_name = six.ensure_text(bytes(bytearray(parser['server_name'])), 'idna')
+            six.ensure_binary(host_name, 'idna')  # a name that decodes but cannot be encoded again (empty label)
         except UnicodeError as e:
             six.raise_from(InvalidValue(bytes(bytearray(parser['server_name'])), cls, 'server_name'), e)
 
